@@ -62,6 +62,7 @@ CHECKS = {
             dict(name="responses", run="^TestPropResponses$", checks=(8000, 50000), shards=(2, 8)),
             dict(name="concurrent", run="^TestPropConcurrentResponses$", checks=(1200, 8000), shards=(4, 16)),
             dict(name="sendrequest", run="^TestPropSendRequest$", checks=(4000, 30000), shards=(2, 8), shrinktime="10s"),
+            dict(name="predef", run="^TestPropPredefinedErrors$", checks=(1500, 12000), shards=(2, 8), shrinktime="10s"),
         ],
         fuzz=[dict(target="FuzzStoreValue", secs=(0, 45)), dict(target="FuzzUnmarshalDataValue", secs=(0, 45)), dict(target="FuzzParseResponse", secs=(0, 30))],
     ),
